@@ -254,11 +254,50 @@ func gen(g *common.Gen) {
 				g.Stat("consume-name-with-spare-capacity")
 			}
 		}
+		// two Consume calls running concurrently on one client (different object names)
+		consume2 := func() {
+			var others []pub
+			p := common.Pick(r, pubs)
+			for _, q := range pubs {
+				if q.name != p.name {
+					others = append(others, q)
+				}
+			}
+			if len(others) == 0 {
+				return
+			}
+			q := common.Pick(r, others)
+			nsegOf := func(name string) int {
+				n := 1
+				for _, x := range pubs {
+					if x.name == name {
+						n = max(n, (x.size-1)/8000+1)
+					}
+				}
+				return n
+			}
+			s1, s2 := genScript(r, g, nsegOf(p.name)), genScript(r, g, nsegOf(q.name))
+			if r.Chance(1, 2) {
+				// one stream fails on a segment while the other is still waiting for (late) segments
+				g.Stat("consume-concurrent-one-fails")
+				s1 = strconv.Itoa(r.Intn(nsegOf(p.name))) + ":" + common.Pick(r, []string{"i.i.i.i", "x.i.x.i", "x.x.x.x.d"})
+				var parts []string
+				for k := 0; k < nsegOf(q.name); k++ {
+					parts = append(parts, strconv.Itoa(k)+":"+common.Pick(r, []string{"i.i.d", "i.i.i.d", "d", "x.d500", "i.i.i.d900", "x.x.d"}))
+				}
+				s2 = strings.Join(parts, ";")
+			}
+			g.Op("consume name=%s script=%s name2=%s script2=%s cap=%d", p.name, s1, q.name, s2, common.Pick(r, []int{0, 0, 2}))
+			g.Stat("consume-concurrent")
+		}
 		for k := r.Range(1, 3); k > 0; k-- {
 			probe()
 		}
 		for k := r.Range(1, 2); k > 0; k-- {
 			consume()
+		}
+		if nobj > 1 && r.Chance(2, 3) {
+			consume2()
 		}
 		if r.Chance(1, 2) {
 			p := common.Pick(r, pubs)
